@@ -62,6 +62,19 @@ Theorem C34_summary_checked : summary_ok = true.
 Proof. exact summary_checked. Qed.
 Print Assumptions C34_summary_checked.
 
+(* same-critical-section obligation on the summary: after the handshake the write
+   traffic secret is replaced only in a critical section of c.out in which the
+   KeyUpdate record was written first (with mutual exclusion on c.out, proved
+   above, this makes "reply + key switch" one step for concurrent Writes); the
+   split shape is rejected *)
+Theorem C34_key_update_atomic_checked : check_keyupdate = true.
+Proof. exact keyupdate_checked. Qed.
+Print Assumptions C34_key_update_atomic_checked.
+
+Theorem C34_split_key_update_rejected : key_switch_atomic [] KUnknown false split_key_update = false.
+Proof. exact split_key_update_rejected. Qed.
+Print Assumptions C34_split_key_update_rejected.
+
 (* any number of goroutines running any summarised non-renegotiating path *)
 Theorem C34_conn_fields_guarded : forall ps,
   (forall p, In p ps -> In p race_paths) ->
